@@ -3,9 +3,10 @@
 set -e
 cd "$(dirname "$0")"
 export GOFLAGS=-mod=mod GOPROXY=off GOSUMDB=off GOTOOLCHAIN=local
-if [ -f translator/main.go ]; then (cd translator && go run . -repo /repo -out ../coq/gen); fi
+REPO=${VERIF_REPO:-/repo}
+if [ -f translator/main.go ]; then (cd translator && go run . -repo $REPO -out ../coq/gen); fi
 (cd coq && coq_makefile -f _CoqProject -o Makefile >/dev/null && make clean >/dev/null 2>&1 || true; timeout 3000 make -j16)
 ./ocaml/build.sh
-cp /repo/go.sum harness/go.sum
-(cd harness && go build -tags verif -o /dev/null ./cmd/mpbh)
+cp $REPO/go.sum harness/go.sum
+if [ "$REPO" = /repo ]; then (cd harness && go build -tags verif -o /dev/null ./cmd/mpbh); fi
 echo setup done
